@@ -10,6 +10,12 @@ package main
 // prefixes, trailing sections, sub-package names in every case with trailing
 // sections, unknown and hostile strings), the dynamic type of auto.New(style)
 // and how a good table renders through it.
+//
+// Round 5: the stock names are registered over like any other name (every
+// built-in, alone, rotated, overwritten and put back); plain 'texttable' and
+// the world's own names are asked at every step, also before they are
+// registered; styles are also put to auto.Render / auto.RenderTo; renderers
+// made at one step are kept and rendered again after later registrations.
 
 import (
 	"encoding/json"
@@ -55,12 +61,25 @@ type C19Q struct {
 	Type  string `json:"type"`
 	R     RRes   `json:"r"`
 	Class string `json:"class"`
+	// how the style was put to the package: "" = auto.New(style) (or auto.Wrap on a held wrapper, class
+	// rewrap:...), "render" = auto.Render(t, style), "renderto" = auto.RenderTo(t, w, style); the last two
+	// return no renderer, so no dynamic type is observed
+	Via string `json:"via,omitempty"`
+}
+
+// A renderer the application kept: made by auto.New(style) at step Since, filled and rendered then
+// (Was), rendered again at the step that carries this record.
+type C19HeldQ struct {
+	Since int  `json:"since"`
+	Q     C19Q `json:"q"`
+	Was   RRes `json:"was"`
 }
 
 type C19Step struct {
-	Listing []string `json:"listing"`
-	Qs      []C19Q   `json:"qs"`
-	Skipped bool     `json:"skipped,omitempty"` // a registration of a burst: nothing observed
+	Listing []string   `json:"listing"`
+	Qs      []C19Q     `json:"qs"`
+	Skipped bool       `json:"skipped,omitempty"` // a registration of a burst: nothing observed
+	Held    []C19HeldQ `json:"held,omitempty"`
 }
 
 type C19Out struct {
@@ -312,7 +331,33 @@ func c19Kind(r auto.RenderTable) string {
 	return "other"
 }
 
-func c19Ask(a c19ask, ids map[string]int) (q C19Q) {
+func c19Ask(a c19ask, ids map[string]int) C19Q {
+	q, _ := c19AskKeep(a, ids)
+	return q
+}
+
+// The same style put to the two entrances that return only the rendering:
+// auto.Render(t, style) and auto.RenderTo(t, w, style) on a table of the
+// application's own.
+func c19AskVia(a c19ask, via string, ids map[string]int) (q C19Q) {
+	q.S, q.Class, q.Via = qname(a.s), map[string]string{"render": "via-auto.Render", "renderto": "via-auto.RenderTo"}[via], via
+	first := strings.Split(a.s, ".")[0]
+	q.First, q.Lower = qname(first), qname(strings.ToLower(first))
+	q.Kind = "other"
+	t := goodTable()
+	if via == "render" {
+		q.R = renderRes(func() (string, error) { return auto.Render(t, a.s) }, ids)
+	} else {
+		q.R = renderRes(func() (string, error) {
+			var b strings.Builder
+			err := auto.RenderTo(t, &b, a.s)
+			return b.String(), err
+		}, ids)
+	}
+	return q
+}
+
+func c19AskKeep(a c19ask, ids map[string]int) (q C19Q, kept auto.RenderTable) {
 	q.S, q.Class = qname(a.s), a.class
 	first := strings.Split(a.s, ".")[0]
 	q.First, q.Lower = qname(first), qname(strings.ToLower(first))
@@ -328,7 +373,7 @@ func c19Ask(a c19ask, ids map[string]int) (q C19Q) {
 	r.AddHeaders("h1", "h2")
 	r.AddRowItems("a", "b")
 	q.R = renderRes(r.Render, ids)
-	return q
+	return q, r
 }
 
 // The same question asked of a table the application already holds wrapped:
@@ -418,21 +463,68 @@ func c19Worker() {
 		out.Init = dumpRegistry()
 	}
 	mine := map[string]bool{}
+	// Asked at EVERY step, whatever the level: plain 'texttable' in two spellings, and every name this
+	// world registers - the ones not registered yet included: they name nothing until they are, the
+	// registered ones select their latest decoration - bare and under 'texttable.'.
+	every := append([]string{}, spec.Extra...)
+	every = append(every, "texttable", "TextTable")
+	for _, r := range spec.Regs {
+		every = append(every, r.N, "texttable."+r.N)
+	}
+	// renderers the application keeps across registrations
+	type keptEnt struct {
+		since int
+		q     C19Q
+		r     auto.RenderTable
+	}
+	var kept []keptEnt
 	observe := func(level int, final bool) {
 		var st C19Step
+		stepNo := len(out.Steps)
 		l := auto.ListStyles()
 		for _, n := range l {
 			st.Listing = append(st.Listing, qname(n))
 		}
-		for _, a := range c19Queries(l, spec.Extra, level, mine) {
+		asks := c19Queries(l, every, level, mine)
+		for _, a := range asks {
 			st.Qs = append(st.Qs, c19Ask(a, ids))
+		}
+		// the other entrances, auto.Render(t, style) and auto.RenderTo(t, w, style): the listed names,
+		// the every-step styles and a rotating fifth (of the large query set: tenth) of the rest,
+		// alternating between the two
+		nth := 5
+		if level == 2 {
+			nth = 10
+		}
+		for i, a := range asks {
+			if a.class == "listed" || a.class == "extra" || (i+stepNo+len(l))%nth == 0 {
+				st.Qs = append(st.Qs, c19AskVia(a, []string{"render", "renderto"}[(i+stepNo)%2], ids))
+			}
+		}
+		// a renderer made at an earlier step is rendered again at the step after it and at the last one
+		for _, k := range kept {
+			if k.since == stepNo-1 || final {
+				q := k.q
+				q.Class = "kept-renderer-rendered-again"
+				q.Kind = c19Kind(k.r)
+				q.R = renderRes(k.r.Render, ids)
+				st.Held = append(st.Held, C19HeldQ{Since: k.since, Q: q, Was: k.q.R})
+			}
+		}
+		if !final {
+			for _, e := range every {
+				q, r := c19AskKeep(c19ask{unq(e), "kept"}, ids)
+				if r != nil {
+					kept = append(kept, keptEnt{stepNo, q, r})
+				}
+			}
 		}
 		if level >= 1 && final {
 			// after the last registration: re-wrapping a held wrapper - the styles that matter
 			// for three (level 2: all) held kinds in turn, the names of this world and a
 			// rotating choice of the rest for one held kind each
 			n := 0
-			for _, a := range c19Queries(l, spec.Extra, level, mine) {
+			for _, a := range asks {
 				always := a.s == "texttable" || a.s == "nosuch" || a.s == "texttable.nosuch"
 				if always {
 					for hi, hs := range c19HeldStyles {
@@ -476,7 +568,7 @@ func c19Worker() {
 				out.Steps = append(out.Steps, C19Step{Skipped: true})
 			}
 		}
-		observe(0, false)
+		observe(0, true)
 		out.BurstBad = c19BurstRounds(40, 16, 3, ids)
 		json.NewEncoder(os.Stdout).Encode(out)
 		return
@@ -571,9 +663,40 @@ func c19Run(spec json.RawMessage) CaseOut {
 		}
 		byStyle := map[string]C19Q{}
 		for _, q := range st.Qs {
-			byStyle[unq(q.S)] = q
 			nq++
 			classes[q.Class] = true
+			if q.Via != "" {
+				continue
+			}
+			byStyle[unq(q.S)] = q
+			// plain 'texttable' is the package's default decoration (palette entry 5, Model/Registry.v
+			// default_decoration), whatever the registry holds
+			if unq(q.Lower) == "texttable" && !strings.Contains(unq(q.S), ".") && (q.R.K != "ok" || q.R.ID != 5) {
+				desc.Failing = append(desc.Failing, fmt.Sprintf("step %d: plain %q (%s) does not render with the default decoration: %s, render %s id=%d %s", i, unq(q.S), q.Class, q.Type, q.R.K, q.R.ID, q.R.Msg))
+				if desc.Sig == "" {
+					desc.Sig = "plain-texttable-not-default"
+				}
+			}
+		}
+		for _, q := range st.Qs {
+			// the other entrances against auto.New of the same style at the same step
+			if n, ok := byStyle[unq(q.S)]; ok && q.Via != "" && !strings.HasPrefix(n.Class, "rewrap:") && n.Class != "held-wrapper-after-rewrap" &&
+				(q.R.K != n.R.K || q.R.ID != n.R.ID) {
+				desc.Failing = append(desc.Failing, fmt.Sprintf("step %d: style %q: auto.%s gives %s id=%d %s where auto.New(style).Render() gives %s id=%d", i, unq(q.S), q.Via, q.R.K, q.R.ID, q.R.Msg, n.R.K, n.R.ID))
+				if desc.Sig == "" {
+					desc.Sig = "entrances-disagree"
+				}
+			}
+		}
+		for _, h := range st.Held {
+			nq++
+			classes[h.Q.Class] = true
+			if h.Q.R.K != h.Was.K || h.Q.R.ID != h.Was.ID {
+				desc.Failing = append(desc.Failing, fmt.Sprintf("step %d: the renderer auto.New(%q) returned at step %d rendered %s id=%d then and renders %s id=%d %s now", i, unq(h.Q.S), h.Since, h.Was.K, h.Was.ID, h.Q.R.K, h.Q.R.ID, h.Q.R.Msg))
+				if desc.Sig == "" {
+					desc.Sig = "kept-renderer-changed"
+				}
+			}
 		}
 		for _, lq := range st.Listing {
 			l := unq(lq)
@@ -656,8 +779,7 @@ func c19Run(spec json.RawMessage) CaseOut {
 		for _, n := range st.Listing {
 			l = append(l, nt.ref(unq(n)))
 		}
-		var qs []string
-		for _, q := range st.Qs {
+		qcoq := func(q C19Q) string {
 			// first section by length when it is a prefix of the style (it always is);
 			// the ToLower answer only when it is not the ASCII lowering
 			style, first, lower := unq(q.S), unq(q.First), unq(q.Lower)
@@ -669,9 +791,24 @@ func c19Run(spec json.RawMessage) CaseOut {
 			if lower != asciiLower(first) {
 				ls = cqSome(nt.ref(lower))
 			}
-			qs = append(qs, fmt.Sprintf("QQ %s %s %s %s %s", nt.ref(style), fs, ls, c19KindCoq[q.Kind], q.R.CoqC()))
+			if q.Via != "" {
+				return fmt.Sprintf("QR %s %s %s %s", nt.ref(style), fs, ls, q.R.CoqC())
+			}
+			return fmt.Sprintf("QQ %s %s %s %s %s", nt.ref(style), fs, ls, c19KindCoq[q.Kind], q.R.CoqC())
 		}
-		steps = append(steps, fmt.Sprintf("St %s %s %s [\n    %s]", reg, cqBool(!st.Skipped), cqList(l), strings.Join(qs, ";\n    ")))
+		var qs []string
+		for _, q := range st.Qs {
+			qs = append(qs, qcoq(q))
+		}
+		if len(st.Held) == 0 {
+			steps = append(steps, fmt.Sprintf("St %s %s %s [\n    %s]", reg, cqBool(!st.Skipped), cqList(l), strings.Join(qs, ";\n    ")))
+		} else {
+			var hs []string
+			for _, h := range st.Held {
+				hs = append(hs, fmt.Sprintf("(%s, %s)", cqNat(h.Since), qcoq(h.Q)))
+			}
+			steps = append(steps, fmt.Sprintf("StH %s %s %s [\n    %s] [\n    %s]", reg, cqBool(!st.Skipped), cqList(l), strings.Join(qs, ";\n    "), strings.Join(hs, ";\n    ")))
+		}
 	}
 	body := fmt.Sprintf("mkC19 %s %s [\n   %s]", cqBool(bad), c17InitCoq(nt, out.Init), strings.Join(steps, ";\n   "))
 	tags := []string{fmt.Sprintf("registrations=%d", len(sp.Regs))}
@@ -786,6 +923,35 @@ func c19Gen(r *RNG, tier string) []json.RawMessage {
 		}
 	}
 	add("w1", "w2", "w3", "w4", "w5", "w6", "w7")
+	// The application re-purposes the stock names (RegisterDecorationName documents that an existing
+	// entry may be overwritten).  Every documented built-in in turn, (a) with an application decoration
+	// and (b) with the decoration of the NEXT built-in (so each stock name then means another stock
+	// look), once as the very first registry operation of the process and once after a listing; all of
+	// them in one world (a rotation of the stock decorations), and one name overwritten and then put
+	// back.  Nothing but the overwritten name itself may resolve differently afterwards: the
+	// sub-packages, plain 'texttable' (the default decoration is a constant of the package, not a
+	// registry entry), the other names.
+	stock := assumedInit()
+	for i, e := range stock {
+		next := stock[(i+1)%len(stock)]
+		out = append(out, mustJSON(C19Spec{Regs: []C19Reg{{N: e.N, D: c19AppDecs[i%len(c19AppDecs)]}}, Cold: i%2 == 0, Full: i == 0}))
+		out = append(out, mustJSON(C19Spec{Regs: []C19Reg{{N: e.N, D: next.D}}, Cold: i%2 == 1}))
+	}
+	for _, cold := range []bool{false, true} {
+		var rot, back C19Spec
+		for i, e := range stock {
+			rot.Regs = append(rot.Regs, C19Reg{N: e.N, D: stock[(i+1)%len(stock)].D})
+			back.Regs = append(back.Regs, C19Reg{N: e.N, D: c19AppDecs[(i+3)%len(c19AppDecs)]})
+		}
+		for _, e := range stock {
+			back.Regs = append(back.Regs, C19Reg{N: e.N, D: e.D}) // ... and every one put back
+		}
+		rot.Cold, back.Cold = cold, !cold
+		out = append(out, mustJSON(rot))
+		if cold || tier == "thorough" {
+			out = append(out, mustJSON(back))
+		}
+	}
 	// the same name registered first thing in the process and after a listing
 	for _, n := range []string{"myplain", "my.dotted"} {
 		out = append(out, mustJSON(C19Spec{Regs: []C19Reg{{N: qname(n), D: 8}}, Cold: true}))
@@ -807,7 +973,18 @@ func c19Gen(r *RNG, tier string) []json.RawMessage {
 	}
 	n := 10
 	if tier == "thorough" {
-		n = 400
+		n = 360
+	}
+	// the random worlds draw from the pool and from every stock name
+	randPool := append([]string{}, c19Pool...)
+	for _, e := range stock {
+		dup := false
+		for _, p := range c19Pool {
+			dup = dup || p == unq(e.N)
+		}
+		if !dup {
+			randPool = append(randPool, unq(e.N))
+		}
 	}
 	for i := 0; i < n; i++ {
 		k := 2 + r.Intn(3)
@@ -824,7 +1001,7 @@ func c19Gen(r *RNG, tier string) []json.RawMessage {
 				nm := strings.Join(parts, ".")
 				names = append(names, nm)
 			} else {
-				names = append(names, pick(r, c19Pool))
+				names = append(names, pick(r, randPool))
 			}
 		}
 		var sp C19Spec
@@ -877,6 +1054,11 @@ func init() {
 			"Near misses of listed names (n+x, n+such, n minus its last byte, texttable.n+d) are asked and must name nothing. " +
 			"Before the first and after each registration: ListStyles and, per listed name, the name itself and 'texttable.'+name; after the last registration also case variants, " +
 			"'TextTable.' prefixes and trailing sections of every listed name, all five sub-package names in 5 ASCII case variants x 6 trailing forms, and 28 unknown/hostile strings. " +
+			"The application re-purposes the stock names: each of the six documented built-ins overwritten with an application decoration and with the next built-in's decoration (cold and after a listing), " +
+			"all six rotated in one world, all six overwritten and then put back; the random worlds draw from the stock names too. " +
+			"At EVERY step (not only the last): plain 'texttable' in two spellings and every name the world registers, bare and under 'texttable.' - the ones not yet registered included. " +
+			"The listed names, those every-step styles and a rotating fifth (large query set: tenth) of the other styles are also put to auto.Render(t, style) and auto.RenderTo(t, w, style) (no renderer value, only the rendering). " +
+			"Renderers the application keeps: auto.New of the every-step styles at each step but the last, rendered again at the following step and at the last one; they must answer from the registry of the step that made them. " +
 			"A case is non-trivial when it registers something; distinct = distinct worlds",
 		Exhaustive: "",
 		Gen:        c19Gen,
